@@ -793,4 +793,335 @@ def concrete_eval(ctx, kind, inp):
         ex, outs = exec_split(ctx, [BV(x, 32) for x in inp['s']], [])
         o = one(outs)
         return [cps(u) for u in split_units(o.st, o.val)]
+    if kind == 'escape_symbols':
+        ex, g, outs = exec_escape_symbols(ctx, [[BV(x, 32) for x in inp['s']]], z3.BoolVal(inp['escape']), z3.BoolVal(inp['surrogates']), [])
+        o = one(outs)
+        return cps(as_str(o.st, o.st.load(g).get('chars').items[0]).items)
+    if kind == 'component':
+        variants = ctx.mir.enums.get('Component')
+        k = inp['kind']
+        name = variants[k]
+        text = SymStr([BV(x, 32) for x in inp['text']])
+        f1, f2 = z3.BoolVal(inp['flag1']), z3.BoolVal(inp['flag2'])
+        a, b = BV(inp['a'], 32), BV(inp['b'], 32)
+        if name in ('CapturedParenthesizedExpression', 'UncapturedParenthesizedExpression'):
+            fields = (text, f1, f2)
+        elif name == 'CharClass':
+            fields = (text,)
+        elif name in ('Caret', 'DollarSign'):
+            fields = (f1,)
+        elif name == 'Quantifier':
+            qs = ctx.mir.enums.get('Quantifier')
+            qn = 'KleeneStar' if inp['flag2'] else 'QuestionMark'
+            fields = (EnumV('Quantifier', qn, qs.index(qn), ()), f1)
+        elif name == 'Repetition':
+            fields = (a, f1)
+        elif name == 'RepetitionRange':
+            fields = (a, b, f1)
+        else:
+            fields = ()
+        ex = ctx.new_exec()
+        st = State()
+        fn = ctx.mir.one_fn(r'^component::<impl at [^>]*>::to_repr$')
+        o = one(ex.run_fn(st, fn, [st.ref(EnumV('Component', name, k, fields)), z3.BoolVal(inp['colored'])]))
+        return cps(as_str(o.st, o.val).items)
+    if kind == 'grapheme_display':
+        ex = ctx.new_exec()
+        st = State()
+        g = grapheme_value(ctx, st, [[BV(x, 32) for x in u_] for u_ in inp['chars']], inp['min'], inp['max'],
+                           (inp['capture'], inp['colored'], inp['verbose']))
+        buf = st.ref(SymStr(()))
+        o = one(ex.run_fn(st, display_fmt_name(ctx, 'Grapheme'), [st.ref(g), buf]))
+        return cps(o.st.load(buf).items)
     raise Inconclusive('no concrete evaluator for ' + kind)
+
+
+# =========================================================================== Q07e  escape_regexp_symbols
+def grapheme_value(ctx, st, units, minv=1, maxv=1, flags=(False, False, False), repetitions=()):
+    fields = ctx.mir.structs.get('Grapheme')
+    if fields != ['chars', 'repetitions', 'min', 'max', 'is_capturing_group_enabled', 'is_output_colorized', 'is_verbose_mode_enabled']:
+        raise Inconclusive('Grapheme layout changed: %s' % (fields,))
+    def b(x):
+        return x if not isinstance(x, bool) else z3.BoolVal(x)
+    def n(x):
+        return x if not isinstance(x, int) else BV(x, 32)
+    return TupV([ListV([SymStr(u) for u in units]), ListV(list(repetitions)), n(minv), n(maxv), b(flags[0]), b(flags[1]), b(flags[2])],
+                fields, 'Grapheme')
+
+
+def exec_escape_symbols(ctx, units, esc, surr, assume):
+    ex = ctx.new_exec()
+    fn = ctx.mir.one_fn(r'^grapheme::<impl at [^>]*>::escape_regexp_symbols$')
+    st = State(pc=list(assume))
+    g = st.ref(grapheme_value(ctx, st, units))
+    outs = ex.run_fn(st, fn, [g, esc, surr])
+    return ex, g, outs
+
+
+def literal_text_alternatives(ctx, c, esc, surr):
+    """texts that denote exactly the literal c for the regex crate (non-verbose), as [(guard, code points)];
+    with escaping of non-ASCII requested, non-ASCII c must take the C11 reference form"""
+    O = ctx.oracle
+    ascii_or_plain = z3.Or(z3.Not(esc), z3.ULT(c, BV(0x80, 32)))
+    alts = [(z3.And(ascii_or_plain, in_ranges(c, O['lit_bare_ok'])), [c]),
+            (z3.And(ascii_or_plain, in_ranges(c, O['lit_backslash_ok'])), [BV(92, 32), c])]
+    for text, cp, ok_plain, _ok_verbose in O['named_escapes']:
+        if ok_plain:
+            alts.append((z3.And(ascii_or_plain, c == BV(cp, 32)), list(lit(text).items)))
+    for g, ref in escape_reference(c, surr):
+        alts.append((z3.And(esc, z3.UGE(c, BV(0x80, 32)), g), ref))
+    return alts
+
+
+@guarded
+def q07e(ctx, n=1, exclude=()):
+    """Q07e: Grapheme::escape_regexp_symbols turns every unit into text that denotes exactly that literal for the regex crate"""
+    ob = Obligation('Q07e[n=%d]' % n, q07e.__doc__)
+    ob.domain = 'one unit of %d code point(s), every scalar value each%s; escape-non-ASCII and surrogate flags symbolic' % (
+        n, '' if n == 1 else ' except the backslash (multi-code-point units never contain one: Q07g)')
+    ob.bound = 'units of exactly %d code point(s); one unit per grapheme' % n
+    cs = [z3.BitVec('c%d' % i, 32) for i in range(n)]
+    esc, surr = z3.Bool('esc'), z3.Bool('surr')
+    assume = [valid_char(c) for c in cs]
+    if n > 1:
+        assume += [c != BV(92, 32) for c in cs]
+    for m in exclude:
+        for c in cs:
+            assume.append(c != BV(m['c0'], 32))
+    if exclude:
+        ob.domain += '; minus the %d code point(s) already reported for n = 1' % len(exclude)
+    t0 = time.time()
+    ex, g, outs = exec_escape_symbols(ctx, [cs], esc, surr, assume)
+    ctx.finish(ob, ex, t0)
+    ob.paths = len(outs)
+    alts = [literal_text_alternatives(ctx, c, esc, surr) for c in cs]
+    bads = []
+    for o in outs:
+        if o.panic:
+            bads.append(z3.And(*o.st.pc))
+            ob.classes_seen['panic'] = ob.classes_seen.get('panic', 0) + 1
+            continue
+        gv = o.st.load(g)
+        chars = gv.get('chars')
+        if not isinstance(chars, ListV) or len(chars.items) != 1:
+            raise Inconclusive('chars after escaping: %r' % (chars,))
+        items = list(as_str(o.st, chars.items[0]).items)
+        k = 'len%d' % len(items)
+        ob.classes_seen[k] = ob.classes_seen.get(k, 0) + 1
+
+        def splits(pos, i):
+            if i == n:
+                return z3.BoolVal(pos == len(items))
+            ds = []
+            for gd, ref in alts[i]:
+                L = len(ref)
+                if pos + L <= len(items):
+                    ds.append(z3.And(gd, *[a == b for a, b in zip(items[pos:pos + L], ref)], splits(pos + L, i + 1)))
+            return z3.Or(*ds) if ds else z3.BoolVal(False)
+        bads.append(z3.And(*o.st.pc, z3.Not(splits(0, 0))))
+    ob.classes_expected = ['len1', 'len2'] if n == 1 else []
+    ctx.check_classes(ob)
+    ob.verdict = decide(ob.qid, assume + ob.defs, z3.Or(*bads), cs + [esc, surr], all_sat=True, max_models=ctx.cap('Q07e'),
+                        second=ctx.second, workdir=ctx.workdir, second_timeout_s=getattr(ctx, 'second_timeout', 60), block_vars=cs)
+    return ob
+
+
+# =========================================================================== Q15  Component rendering: colour only adds SGR codes
+def strip_sgr(items):
+    """remove ESC [ <digits and ;> m sequences whose characters are all concrete; -> (stripped items, n removed)
+    symbolic items are payload (assumed to contain no ESC) and are kept"""
+    out, i, removed = [], 0, 0
+    cs = [concrete(x) for x in items]
+    while i < len(items):
+        if cs[i] == 0x1b and i + 1 < len(items) and cs[i + 1] == ord('['):
+            j = i + 2
+            while j < len(items) and cs[j] is not None and (chr(cs[j]).isdigit() or cs[j] == ord(';')):
+                j += 1
+            if j < len(items) and cs[j] == ord('m') and j > i + 2:
+                i = j + 1
+                removed += 1
+                continue
+        out.append(items[i])
+        i += 1
+    return out, removed
+
+
+def component_values(ctx, k):
+    """symbolic instances of Component variant number k: [(description, EnumV, vars, assumptions)]"""
+    variants = ctx.mir.enums.get('Component')
+    if not variants or len(variants) < 10:
+        raise Inconclusive('Component variants not found')
+    name = variants[k]
+    res = []
+
+    def payload(n, tag):
+        vs = [z3.BitVec('%s%d' % (tag, i), 32) for i in range(n)]
+        return SymStr(vs), vs, [z3.And(valid_char(v), v != BV(0x1b, 32)) for v in vs]
+    b1, b2 = z3.Bool('flag1'), z3.Bool('flag2')
+    a, b = z3.BitVec('a', 32), z3.BitVec('b', 32)
+    if name in ('CapturedParenthesizedExpression', 'UncapturedParenthesizedExpression'):
+        for n in (0, 2):
+            s, vs, asm = payload(n, 'p')
+            res.append(('%s(payload of %d code points, bool, bool)' % (name, n), EnumV('Component', name, k, (s, b1, b2)), vs + [b1, b2], asm))
+    elif name == 'CharClass':
+        for n in (0, 1, 3):
+            s, vs, asm = payload(n, 'p')
+            res.append(('%s(payload of %d code points)' % (name, n), EnumV('Component', name, k, (s,)), vs, asm))
+    elif name in ('Caret', 'DollarSign'):
+        res.append(('%s(bool)' % name, EnumV('Component', name, k, (b1,)), [b1], []))
+    elif name == 'Quantifier':
+        qs = ctx.mir.enums.get('Quantifier')
+        for qi, qn in enumerate(qs):
+            res.append(('Quantifier(%s, bool)' % qn, EnumV('Component', name, k, (EnumV('Quantifier', qn, qi, ()), b1)), [b1], []))
+    elif name == 'Repetition':
+        res.append(('Repetition(u32, bool)', EnumV('Component', name, k, (a, b1)), [a, b1], []))
+    elif name == 'RepetitionRange':
+        res.append(('RepetitionRange(u32, u32, bool)', EnumV('Component', name, k, (a, b, b1)), [a, b, b1], []))
+    else:
+        res.append((name, EnumV('Component', name, k, ()), [], []))
+    return res
+
+
+@guarded
+def q15(ctx, k):
+    """Q15: for one Component variant, removing the SGR sequences from the coloured rendering gives the plain rendering"""
+    variants = ctx.mir.enums.get('Component') or []
+    ob = Obligation('Q15[%s]' % (variants[k] if k < len(variants) else k), q15.__doc__)
+    ob.domain = 'all field values of the variant: Booleans, every u32, payload strings of 0..3 arbitrary code points without ESC'
+    ob.bound = 'payload strings of at most 3 code points (they are copied through unchanged)'
+    fn = ctx.mir.one_fn(r'^component::<impl at [^>]*>::to_repr$')
+    bads, vars_all, assume_all = [], [], []
+    npaths = 0
+    ex = ctx.new_exec()
+    t0 = time.time()
+    for desc, comp, vars_, asm in component_values(ctx, k):
+        st = State(pc=list(asm))
+        cref = st.ref(comp)
+        outs = ex.run_fn(st, fn, [cref, z3.BoolVal(True)])
+        for o in outs:
+            if o.panic:
+                bads.append(z3.And(*o.st.pc))
+                continue
+            col = list(as_str(o.st, o.val).items)
+            stripped, removed = strip_sgr(col)
+            if any(concrete(x) == 0x1b for x in stripped):
+                raise Inconclusive('coloured rendering of %s contains an ESC that is not part of a recognised SGR sequence' % desc)
+            outs2 = ex.run_fn(o.st, fn, [cref, z3.BoolVal(False)])
+            for o2 in outs2:
+                npaths += 1
+                if o2.panic:
+                    bads.append(z3.And(*o2.st.pc))
+                    continue
+                plain = list(as_str(o2.st, o2.val).items)
+                cls = 'coloured(%d SGR)' % removed
+                ob.classes_seen[cls] = ob.classes_seen.get(cls, 0) + 1
+                if len(plain) != len(stripped):
+                    bads.append(z3.And(*o2.st.pc))
+                else:
+                    bads.append(z3.And(*o2.st.pc, z3.Not(z3.And(*[x == y for x, y in zip(stripped, plain)]))))
+                if removed == 0 or removed % 2:
+                    bads.append(z3.And(*o2.st.pc))      # highlighting must add balanced start/reset codes
+        for v in vars_:
+            if not any(v.eq(w) for w in vars_all):
+                vars_all.append(v)
+    ctx.finish(ob, ex, t0)
+    ob.paths = npaths
+    ob.verdict = decide(ob.qid, ob.defs, z3.Or(*bads) if bads else z3.BoolVal(False), vars_all,
+                        second=ctx.second, workdir=ctx.workdir, second_timeout_s=getattr(ctx, 'second_timeout', 60))
+    return ob
+
+
+# =========================================================================== Q15g  Display for Grapheme: colour only adds SGR codes
+def exec_grapheme_display(ctx, ex, st, units, minv, maxv, capture, colored, verbose, nested=None):
+    fn = ctx.mir.one_fn(r'^grapheme::<impl at [^>]*>::fmt$')   # Display (the derive(Debug) fmt has a distinct header)
+    reps = []
+    if nested is not None:
+        reps = [grapheme_value(ctx, st, nested[0], nested[1], nested[2], (capture, colored, verbose))]
+    g = grapheme_value(ctx, st, units, minv, maxv, (capture, colored, verbose), reps)
+    buf = st.ref(SymStr(()))
+    outs = ex.run_fn(st, fn, [st.ref(g), buf])
+    return buf, outs
+
+
+def display_fmt_name(ctx, ty):
+    c = [n for n in ctx.mir.fns if n.endswith('>::fmt') and re.search(r'impl(<[^>]*>)? Display for %s\b' % ty, ctx.mir.impl_headers.get(n, ''))]
+    if len(c) != 1:
+        raise Inconclusive('Display impl of %s: %s' % (ty, c))
+    return c[0]
+
+
+@guarded
+def q15g(ctx, shape):
+    """Q15g: Display for Grapheme -- removing the SGR sequences from the highlighted rendering gives the plain rendering"""
+    ob = Obligation('Q15g[%s]' % shape, q15g.__doc__)
+    nested = None
+    if shape == 'class-token':
+        cls = z3.BitVec('cls', 32)
+        units = [[BV(92, 32), cls]]
+        pvars = [cls]
+        asm = [valid_char(cls), cls != BV(0x1b, 32)]
+        ob.domain = 'one unit "\\\\x" (x any code point: covers the six class tokens and everything else), min/max any u32, capture/verbose flags'
+    elif shape.startswith('unit'):
+        n = int(shape[4:])
+        pvars = [z3.BitVec('p%d' % i, 32) for i in range(n)]
+        units = [pvars]
+        asm = [z3.And(valid_char(v), v != BV(0x1b, 32)) for v in pvars]
+        ob.domain = 'one unit of %d arbitrary code points (no ESC), min/max any u32, capture/verbose flags' % n
+    elif shape == 'nested':
+        pvars = [z3.BitVec('p0', 32), z3.BitVec('q0', 32)]
+        units = [[pvars[0]], [pvars[0]]]
+        nested = ([[pvars[1]]], z3.BitVec('imin', 32), z3.BitVec('imax', 32))
+        asm = [z3.And(valid_char(v), v != BV(0x1b, 32)) for v in pvars]
+        pvars += [nested[1], nested[2]]
+        asm += [z3.ULT(nested[1], BV(100, 32)), z3.ULT(nested[2], BV(100, 32)), z3.ULT(z3.BitVec('min', 32), BV(100, 32)),
+                z3.ULT(z3.BitVec('max', 32), BV(100, 32))]
+        ob.domain = 'two units plus one nested repetition (one unit), all four counts < 100 (two decimal digits), flags'
+    else:
+        raise Inconclusive('shape ' + shape)
+    ob.bound = 'concrete shape "%s"; code points, counts and flags symbolic' % shape
+    minv, maxv = z3.BitVec('min', 32), z3.BitVec('max', 32)
+    capture, verbose = z3.Bool('capture'), z3.Bool('verbose')
+    fn = display_fmt_name(ctx, 'Grapheme')
+    ex = ctx.new_exec()
+    ex_fn = fn
+    t0 = time.time()
+    st = State(pc=list(asm))
+
+    def run(st, colored):
+        reps = []
+        if nested is not None:
+            reps = [grapheme_value(ctx, st, nested[0], nested[1], nested[2], (capture, z3.BoolVal(colored), verbose))]
+        g = grapheme_value(ctx, st, units, minv, maxv, (capture, z3.BoolVal(colored), verbose), reps)
+        buf = st.ref(SymStr(()))
+        return buf, ex.run_fn(st, ex_fn, [st.ref(g), buf])
+    bads = []
+    npaths = 0
+    buf1, outs = run(st, True)
+    for o in outs:
+        if o.panic:
+            bads.append(z3.And(*o.st.pc))
+            continue
+        col = list(o.st.load(buf1).items)
+        stripped, removed = strip_sgr(col)
+        if any(concrete(x) == 0x1b for x in stripped):
+            raise Inconclusive('highlighted rendering contains an ESC outside a recognised SGR sequence')
+        buf2, outs2 = run(o.st, False)
+        for o2 in outs2:
+            npaths += 1
+            if o2.panic:
+                bads.append(z3.And(*o2.st.pc))
+                continue
+            plain = list(o2.st.load(buf2).items)
+            cls_ = 'sgr_pairs=%d' % (removed // 2)
+            ob.classes_seen[cls_] = ob.classes_seen.get(cls_, 0) + 1
+            if len(plain) != len(stripped):
+                bads.append(z3.And(*o2.st.pc))
+            else:
+                bads.append(z3.And(*o2.st.pc, z3.Not(z3.And(*[x == y for x, y in zip(stripped, plain)]))))
+            if removed % 2:
+                bads.append(z3.And(*o2.st.pc))
+    ctx.finish(ob, ex, t0)
+    ob.paths = npaths
+    ob.verdict = decide(ob.qid, asm + ob.defs, z3.Or(*bads) if bads else z3.BoolVal(False), pvars + [minv, maxv, capture, verbose],
+                        second=ctx.second, workdir=ctx.workdir, second_timeout_s=getattr(ctx, 'second_timeout', 60))
+    return ob
